@@ -195,6 +195,8 @@ class Interp:
                 self.rig.sock.subscribe_on_connection_changed(on_conn)
         elif name == "arm":
             net.arm_on_accept.extend(args[0])
+        elif name == "close_latency":
+            net.close_latency = args[0]
         elif name == "ext_reset":
             t = loop.spawn(self.rig.sock.reset_connection())
             t.add_done_callback(lambda t: t.cancelled() or t.exception())
@@ -226,7 +228,7 @@ class Interp:
         errs = harness.unhandled_task_errors()
         if errs:
             self.bad("task-died", f"a background task of the client died: {errs[0]}")
-        for tr in net.live():
+        for tr in [c for c in net.conns if c.alive]:
             if tr.rx_log and refproto.parse_stream(self.gen, bytes(tr.rx_log)).error:
                 self.bad("garbled-connection-kept", f"connection {tr.cid} received bytes that violate the framing "
                                                     f"({bytes(tr.rx_log).hex()[:80]}) yet was not dropped")
@@ -282,7 +284,7 @@ class Interp:
         if pr.error or pr.incomplete or not pr.frames or (pr.frames[-1].mtype, pr.frames[-1].data) != (mtype, data):
             self.bad("mute", f"command submitted on the healed connection is not on its wire (wrote {tail.hex()[:120]})")
         # single, and everything abandoned is closed
-        others = [c.cid for c in net.conns if c is not cur and c.cid in net.open_conns]
+        others = [c.cid for c in net.conns if c is not cur and c.alive]
         if others:
             self.bad("abandoned-open", f"abandoned connections {others} were never closed")
         self.invariant()
@@ -291,7 +293,8 @@ class Interp:
         self.rig.dispose()
 
 
-FAULTS = ["eof", "reset", "garbage", "badcrc", "trunc_eof", "undecodable", "writefault", "send_bad", "ext_reset", "script", "arm"]
+FAULTS = ["eof", "reset", "garbage", "badcrc", "trunc_eof", "undecodable", "writefault", "send_bad", "ext_reset", "script", "arm",
+          "close_latency"]
 
 
 def _simple_op(gen):
@@ -353,6 +356,27 @@ def make_machine(gen: int, stats: Stats):
             self._do(["arm", arm])
             self._do([how])
             self._do(["advance", dt])
+
+        @rule(lat=st.sampled_from([0.0, 0.125, 0.25, 0.5]))
+        def slow_close(self, lat):
+            self._do(["close_latency", lat])
+
+        @rule(kp=sockops.kind_and_params(gen), n=st.integers(1, 3), lat=st.sampled_from([0.0, 0.125]),
+              close_lat=st.sampled_from([0.125, 0.25, 0.5]), dt=st.sampled_from([1.5, 1.75, 1.875, 2.0]),
+              fault=_simple_op(gen), dt2=st.sampled_from(DTS))
+        def failed_first_write_then_fault(self, kp, n, lat, close_lat, dt, fault, dt2):
+            """A message is pending while the link is down; the first write on the new connection fails (which leaves a
+            delayed reconnection attempt behind); roughly two seconds later, with a transport that takes a while to
+            close, another fault arrives."""
+            self._do(["script", [["accept", lat]]])
+            self._do(["reset"])
+            self._do(["send", kp[0], kp[1], "idem"])
+            self._do(["arm", [n]])
+            self._do(["advance", lat])
+            self._do(["close_latency", close_lat])
+            self._do(["advance", dt])
+            self._do(fault)
+            self._do(["advance", dt2])
 
         @rule()
         def raising_subscribers(self):
